@@ -80,6 +80,7 @@ inductive BuildErr
   | keywordNodeName (n : Name)
   | invalidOutputName (node out : Name)
   | keywordOutputName (node out : Name)
+  | duplicateOutputName (node out : Name)
   | namespaceCollision (graphNode src : Name)
   | mixedDefaults (param : Name) (withD without : List Name)
   | defaultMismatch (param a b : Name)
@@ -111,6 +112,7 @@ def className : BuildErr → String
   | graphName _ => "graph_name"
   | reservedName _ | invalidNodeName _ | keywordNodeName _ | invalidOutputName .. | keywordOutputName .. =>
     "illegal_name"
+  | duplicateOutputName .. => "duplicate_output"
   | namespaceCollision .. => "namespace_collision"
   | mixedDefaults .. | defaultMismatch .. => "inconsistent_defaults"
   | unknownTarget .. => "unknown_target"
@@ -362,6 +364,11 @@ def chkIdentifiersSkipGraph (b : BuildInput) : Option BuildErr :=
     else if isKeyword nd.name then some (.keywordNodeName nd.name)
     else chkOutputNames nd
 
+/-- `_validate_distinct_outputs_per_node` (repair "a node cannot declare one output name twice"):
+`@node(output_name=("a", "a"))` used to be accepted, the second value silently overwriting the first -/
+def chkDistinctOutputs (b : BuildInput) : Option BuildErr :=
+  b.nodes.findSome? fun nd => (firstDup [] nd.outputs).map (.duplicateOutputName nd.name)
+
 /-- `all_outputs[name]` of `_validate_no_namespace_collision`: the LAST node producing `name` -/
 def lastSource (nodes : List NodeD) (o : Name) : Option Name := (sourcesOf nodes o).getLast?
 
@@ -463,21 +470,21 @@ def chkOldRawError (b : BuildInput) : Option BuildErr :=
 /-- the checks of `Graph.__init__`, in the order they run -/
 def checks : List (BuildInput → Option BuildErr) :=
   [chkDuplicateNodes, chkExplicitEdges, chkOutputConflicts,
-   chkGraphName, chkReservedNames, chkIdentifiers, chkNamespaceCollision, chkConsistentDefaults,
+   chkGraphName, chkReservedNames, chkIdentifiers, chkDistinctOutputs, chkNamespaceCollision, chkConsistentDefaults,
    chkGateTargets, chkGateSelfLoop, chkMultiTarget, chkInterruptInMap, chkCacheOnGraphNode,
    chkWaitFor, chkTypes]
 
 /-- the same with the pre-repair `_expand_mutex_groups` (first statement of `validate_output_conflicts`) -/
 def checksOld : List (BuildInput → Option BuildErr) :=
   [chkDuplicateNodes, chkExplicitEdges, chkOldRawError, chkOutputConflicts,
-   chkGraphName, chkReservedNames, chkIdentifiers, chkNamespaceCollision, chkConsistentDefaults,
+   chkGraphName, chkReservedNames, chkIdentifiers, chkDistinctOutputs, chkNamespaceCollision, chkConsistentDefaults,
    chkGateTargets, chkGateSelfLoop, chkMultiTarget, chkInterruptInMap, chkCacheOnGraphNode,
    chkWaitFor, chkTypes]
 
 /-- the same with the pre-repair `_validate_types` (ordering edges typed as well) -/
 def checksAllEdges : List (BuildInput → Option BuildErr) :=
   [chkDuplicateNodes, chkExplicitEdges, chkOutputConflicts,
-   chkGraphName, chkReservedNames, chkIdentifiers, chkNamespaceCollision, chkConsistentDefaults,
+   chkGraphName, chkReservedNames, chkIdentifiers, chkDistinctOutputs, chkNamespaceCollision, chkConsistentDefaults,
    chkGateTargets, chkGateSelfLoop, chkMultiTarget, chkInterruptInMap, chkCacheOnGraphNode,
    chkWaitFor, chkTypesAllEdges]
 
@@ -485,6 +492,13 @@ def checksAllEdges : List (BuildInput → Option BuildErr) :=
 def checksSkipGraph : List (BuildInput → Option BuildErr) :=
   [chkDuplicateNodes, chkExplicitEdges, chkOutputConflicts,
    chkGraphName, chkReservedNames, chkIdentifiersSkipGraph, chkNamespaceCollision, chkConsistentDefaults,
+   chkGateTargets, chkGateSelfLoop, chkMultiTarget, chkInterruptInMap, chkCacheOnGraphNode,
+   chkWaitFor, chkTypes]
+
+/-- the same before the repair "a node cannot declare one output name twice" -/
+def checksDupOutputs : List (BuildInput → Option BuildErr) :=
+  [chkDuplicateNodes, chkExplicitEdges, chkOutputConflicts,
+   chkGraphName, chkReservedNames, chkIdentifiers, chkNamespaceCollision, chkConsistentDefaults,
    chkGateTargets, chkGateSelfLoop, chkMultiTarget, chkInterruptInMap, chkCacheOnGraphNode,
    chkWaitFor, chkTypes]
 
@@ -504,6 +518,9 @@ def buildGraphAllEdges (b : BuildInput) : Except BuildErr Unit := runChecks chec
 
 /-- the constructor before the repair "output names of a nested graph are validated" -/
 def buildGraphSkipGraph (b : BuildInput) : Except BuildErr Unit := runChecks checksSkipGraph b
+
+/-- the constructor before the repair "a node cannot declare one output name twice" -/
+def buildGraphDupOutputs (b : BuildInput) : Except BuildErr Unit := runChecks checksDupOutputs b
 
 /-- `"ok"` or the flaw class of the first error -/
 def classify (b : BuildInput) : String :=
